@@ -48,7 +48,7 @@ ChoiceSyms == {[Ses("negotiating", i) EXCEPT !.enc = e, !.comp = c] :
               \cup Noise
 UpgradeSyms == {In("tlsup"), Ses("negotiating", "right"), In("eof")}
 CredSyms   == {[Ses("authenticating", i) EXCEPT !.scheme = s, !.ident = ic[1], !.cred = ic[2]] :
-                 i \in {"right", "wrong", "none"}, s \in {"plain", "key"},
+                 i \in {"right", "wrong", "none"}, s \in {"plain", "key", "external"},
                  ic \in {<<"a", "p">>, <<"b", "q">>}}
               \cup {[Ses("authenticating", i) EXCEPT !.scheme = s, !.ident = d, !.cred = "e"] :
                  i \in {"right", "wrong", "none"}, s \in {"guest", "transport"}, d \in {"a", "b"}}
@@ -159,6 +159,7 @@ AuthOutcomes(sym) ==
   ELSE CASE sym.scheme = "guest" -> {IF sym.ident = "a" THEN "member" ELSE "unknown"}
          [] sym.scheme = "plain" /\ sym.cred # "" ->
               {"member", "unknown", "error"} \cup (IF rt < MaxRT THEN {"roundtrip"} ELSE {})
+         [] sym.scheme \in {"key", "external"} /\ sym.cred # "" -> {"member", "unknown", "error"}
          [] OTHER -> {"error"}
 
 (* loop body of authenticateSession *)
